@@ -149,6 +149,14 @@ def _(c, m, x):
     return rsome.quad(x, Q) <= r, lambda xv, aux: p_le(4.0 * xv[0] * xv[0] + 0.25 * xv[1] * xv[1], rv(xv))
 
 
+@case("quad-nonsymmetric")
+def _(c, m, x):
+    # x'Qx depends only on the symmetric part of Q: here diag(4, 0.25) (the skew part cancels), whose square root is exact
+    r, rv = _rhs(c, x, ())
+    Q = np.array([[4.0, 1.0], [-1.0, 0.25]])
+    return rsome.quad(x, Q) <= r, lambda xv, aux: p_le(4.0 * xv[0] * xv[0] + 0.25 * xv[1] * xv[1], rv(xv))
+
+
 @case("rsocone")
 def _(c, m, x):
     e, ev = lin(c, x, 2, "in")
@@ -882,12 +890,66 @@ def pnorm_exp_cone_sampled():
     return out
 
 
+def perspective_sums():
+    """BOUNDED, numerical: `.sum()` of a perspective atom.  Either the library refuses it (raises before a program is compiled) or the
+    compiled constraint is the SUM as written: min t s.t. pexp(x, s).sum() <= t at a pinned x returns sum_i s exp(x_i / s); the same for
+    plog with max.  A result that drops the scale (the plain exp / log sum) is a constraint replaced by a different one."""
+    import warnings
+    from .. import install
+    from .c18 import _quiet
+    install.uninstall()
+    import rsome as rso
+    from rsome import ro as nro, dro as ndro, eco_solver as eco
+    out = []
+    REJ = (ValueError, TypeError, NotImplementedError, AttributeError)
+    for front in ("ro", "dro"):
+        for atom in ("pexp", "plog"):
+            for scale in (2.0, np.array([2.0, 0.5])):
+                def run(front=front, atom=atom, scale=scale):
+                    xv = np.array([1.0, 1.5])
+                    if front == "ro":
+                        m = nro.Model()
+                        x, t = m.dvar(2), m.dvar()
+                        setobj = (lambda e: m.min(e)) if atom == "pexp" else (lambda e: m.max(e))
+                    else:
+                        m = ndro.Model(1)
+                        x, t = m.dvar(2), m.dvar()
+                        z = m.rvar()
+                        fs = m.ambiguity()
+                        fs.suppset(z == 0)
+                        setobj = (lambda e: m.minsup(e, fs)) if atom == "pexp" else (lambda e: m.maxinf(e, fs))
+                    try:
+                        k = (rso.pexp(x, scale).sum() <= t) if atom == "pexp" else (rso.plog(x, scale).sum() >= t)
+                        setobj(t)
+                        m.st(k, x == xv)
+                        with warnings.catch_warnings(), _quiet():
+                            warnings.simplefilter("ignore")
+                            m.solve(eco, display=False)
+                    except REJ:
+                        return True
+                    sc = scale + np.zeros(2)
+                    want = float(np.sum(sc * np.exp(xv / sc)) if atom == "pexp" else np.sum(sc * np.log(xv / sc)))
+                    got = float(m.get())
+                    if abs(got - want) > 1e-5 * (1 + abs(want)):
+                        return f"{front}: {atom}(x, {np.asarray(scale).tolist()}).sum() at x={xv.tolist()}: optimum {got:.6f}, the sum as written is {want:.6f}"
+                    return True
+                obs, _ = check_function("rsome.lp:PerspConvex.sum", lambda c: {}, lambda ns, run=run: run(),
+                                        [post("sum-of-a-perspective-atom-is-refused-or-enforced-as-written (sampled, ECOS)", lambda ns, res: res is True)],
+                                        mode="N", label=f"{front},{atom},scale={np.asarray(scale).tolist()}", bounded=True, replay=None)
+                for o in obs:
+                    if o["status"] == "violated":
+                        o["reason"] = (o.get("reason") or "") + " | " + str(run())
+                out += obs
+    return out
+
+
 def jobs(tier):
     js = [{"name": f"constr-{n}", "kind": "constr", "case": n} for n in CASES]
     js += [{"name": f"objective-{n}", "kind": "objective", "case": n} for n in OBJECTIVES]
     # p-norm / power / geometric mean: soundness = (call-site contract of the G/T/C branches) + (tower lemma, C07)
     js.append({"name": "tower-callsites", "kind": "tower_callsites"})
     js.append({"name": "pnorm-exp-cone-sampled", "kind": "pnorm_sampled"})
+    js.append({"name": "perspective-sums", "kind": "persp_sums"})
     return js
 
 
@@ -898,6 +960,8 @@ def run_job(job):
         return objective_case(job["case"], ("sound",))
     if job["kind"] == "pnorm_sampled":
         return pnorm_exp_cone_sampled()
+    if job["kind"] == "persp_sums":
+        return perspective_sums()
     if job["kind"] == "tower_callsites":
         from . import c07
         return c07.tower_callsites()
